@@ -27,7 +27,7 @@ def _pt_affine32(u):
 
 
 PRIORS = {"identity-view": targets.pt_identity_view, "affine-list": targets.pt_affine_list, "affine-index": targets.pt_affine_index, "affine32": _pt_affine32, "affine": targets.pt_affine, "nonlinear": targets.pt_nonlinear, "identity": targets.pt_identity}
-BOUNDARY = {"empty": ([], []), "tuples": ((0,), (1,)), "sets": ({0}, frozenset({1})), "none": (None, None), "per0": ([0], None), "ref1": (None, [1]), "per0ref1": ([0], [1]), "ref0": (None, [0]), "per1": ([1], None)}
+BOUNDARY = {"dup0": ([0, 0], None), "dup1ref": (None, [1, 1]), "empty": ([], []), "tuples": ((0,), (1,)), "sets": ({0}, frozenset({1})), "none": (None, None), "per0": ([0], None), "ref1": (None, [1]), "per0ref1": ([0], [1]), "ref0": (None, [0]), "per1": ([1], None)}
 
 
 class LL:
@@ -49,6 +49,8 @@ class LL:
             self.fail_countdown -= 1
             if self.fail_countdown <= 0:
                 self.fail_countdown = None
+                if getattr(self, "fail_kind", "exc") == "kbd":
+                    raise UserInterrupt("Ctrl-C injected while the user's likelihood runs")
                 raise UserFailure("transient failure injected into the user's likelihood")
         if self.mode == "vec":
             x = np.asarray(x)
@@ -71,6 +73,8 @@ class LL:
                 return v, np.array([b, 2 * b, 3 * b])
             if self.blob_form == "str":
                 return v, repr(float(b))
+            if self.blob_form == "nan":  # a derived quantity that is undefined (NaN) in part of the space
+                return v, (float("nan") if float(np.asarray(x).reshape(-1)[0]) <= 0.0 else b)
             return v, b
         return v
 
@@ -104,6 +108,30 @@ class LazyPool(OrderedPool):
         return iter(super().map(f, xs))
 
 
+class _Model:
+    """A user object whose bound method is handed to the sampler; nobody else keeps a reference to the object."""
+
+    def __init__(self, f):
+        self.inner = f
+
+    def log_likelihood(self, x, *a, **k):
+        return self.inner(x, *a, **k)
+
+    def prior_transform(self, u):
+        return self.inner(u)
+
+
+def _as_callable(f, form, method):
+    import functools
+    if form in (None, "plain"):
+        return f
+    if form == "bound-temp":
+        return getattr(_Model(f), method)
+    if form == "partial":
+        return functools.partial(f)
+    raise KeyError(form)
+
+
 SPELL = {"int": int, "float": float, "np.int64": np.int64, "np.int32": np.int32, "np.uint8": np.uint8, "np.float64": np.float64, "np.float32": np.float32,
          "np.bool_": np.bool_, "0-d int array": lambda v: np.array(int(v)), "0-d float array": lambda v: np.array(float(v)), "bool-as-int": int}
 
@@ -123,7 +151,7 @@ def make_sampler(cfg, pool=None):
     ll.ret = c.get("ll_return")
     per, ref = BOUNDARY[c["boundary"]]
     kw = dict(
-        prior_transform=PRIORS[c["prior"]], log_likelihood=ll, n_dim=c["d"], n_particles=c["n_particles"], ess_ratio=c["ess_ratio"],
+        prior_transform=_as_callable(PRIORS[c["prior"]], c.get("callable"), "prior_transform"), log_likelihood=_as_callable(ll, c.get("callable"), "log_likelihood"), n_dim=c["d"], n_particles=c["n_particles"], ess_ratio=c["ess_ratio"],
         volume_variation=c["vv"], vectorize=(mode == "vec"), blobs_dtype=("O" if c.get("blob_form") == "str" else (c.get("blob_dtype") or "float64")) if mode == "blobs" else None,
         periodic=per, reflective=ref, clustering=c["clustering"], normalize=c["normalize"], cluster_every=c["cluster_every"],
         split_threshold=c["split_threshold"], n_max_clusters=c["n_max_clusters"], sample=c["sample"], n_steps=c["n_steps"],
@@ -407,13 +435,15 @@ class Probe:
                             with self._env():
                                 self.sampler.sample()
                             break
-                        except Exception as e:
+                        except BaseException as e:
                             if retry_on is None or not isinstance(e, retry_on) or self.retries >= 8:
                                 raise
                             self.retries += 1
                             self.in_iter = False
             self.completed = True
-        except Exception as e:
+        except BaseException as e:
+            if isinstance(e, KeyboardInterrupt) and not isinstance(e, UserInterrupt):
+                raise
             self.exc = e
         finally:
             _ACTIVE = prev
@@ -426,6 +456,10 @@ class Horizon(Exception):
 
 class UserFailure(RuntimeError):
     """Raised by a fixture likelihood at a chosen call (a transient failure of the user's code)."""
+
+
+class UserInterrupt(KeyboardInterrupt):
+    """Ctrl-C while the user's likelihood runs (NOT an Exception subclass); the user catches it and carries on with the same sampler."""
 
 
 def deviation_tree(run_fn, alphabet=("a", "b"), max_dev=1, max_runs=None):
